@@ -315,6 +315,28 @@ def _siblings_of(orig):
     return out
 
 
+TIME_NAMES = {'dt', 'step', 'periods', 'period', 'response_times', 'target_dt', 'travel_times', 'stt', 'time'}
+
+
+def _timescale(orig, a, k):
+    """the same call with every TIME-like argument (dt, periods, …) multiplied by 2: products such as w*dt = 2 pi dt / T are bit-identical,
+    the step itself is not (memos keyed on a dimensionless combination)"""
+    try:
+        names = list(inspect.signature(orig).parameters)
+    except Exception:  # noqa
+        return None
+    a2, k2, hit = list(a), dict(k), 0
+    for i, v in enumerate(a):
+        if i < len(names) and names[i] in TIME_NAMES and (isinstance(v, (float, np.floating)) or (_is_num_seq(v) and np.asarray(v).dtype.kind == 'f')):
+            a2[i] = v * 2 if not isinstance(v, (list, tuple)) else type(v)(x * 2 for x in v)
+            hit += 1
+    for n, v in k.items():
+        if n in TIME_NAMES and (isinstance(v, (float, np.floating)) or (_is_num_seq(v) and np.asarray(v).dtype.kind == 'f')):
+            k2[n] = v * 2 if not isinstance(v, (list, tuple)) else type(v)(x * 2 for x in v)
+            hit += 1
+    return (tuple(a2), k2) if hit >= 2 else None
+
+
 def _evict_args(a, k):
     """the same call shape with every array argument one element shorter (another memo key)"""
     def cut(v):
@@ -336,6 +358,25 @@ def _fresh_str(v):
     if isinstance(v, str) and len(v) >= 2:
         return ''.join(list(v))
     return v
+
+
+CHECK_SETTINGS = True
+
+
+def _settings_of(obj):
+    """what an analysis function must leave alone on a signal object it is handed: record, time step, settings"""
+    try:
+        out = {'values': np.asarray(obj.values).tobytes(), 'dt': float(obj.dt), 'npts': int(obj.npts)}
+        for n in ('response_times', 'smooth_fa_frequencies'):
+            if hasattr(type(obj), n) or hasattr(obj, n):
+                try:
+                    x = getattr(obj, n)
+                    out[n] = None if x is None else np.asarray(x, dtype=float).tobytes()
+                except Exception:  # noqa
+                    pass
+        return out
+    except Exception:  # noqa
+        return None
 
 
 def _signal_like(r):
@@ -386,9 +427,19 @@ def _wrap_function(orig, qual):
                 k = {n: _fresh_str(v) for n, v in k.items()}
             if NP_BOOLS and rng.random() < 0.3:
                 k = {n: _np_bool(v) for n, v in k.items()}
+            snaps = [(i, v, _settings_of(v)) for i, v in enumerate(a) if _signal_like(v)][:2] if (CHECK_SETTINGS and rng.random() < 0.5) else []
             res0 = _wrapper_body(st, rng, orig, qual, a, k)
             if _signal_like(res0) and rng.random() < 0.5 and st.prop not in NO_METHOD_PROBE:
                 _factory_check(st, qual, res0, a, k)
+            for i, v, before in snaps:
+                after = _settings_of(v)
+                if before is not None and after is not None:
+                    bad = [n for n in before if before[n] != after[n]]
+                    st.ctx.oracle(f"{st.prop} an analysis function leaves the signal object it is given unchanged: {qual} does not alter the record, the time step or "
+                                  f"the settings (response periods, smoothing frequencies) of its argument", not bad,
+                                  inputs={'function': qual, 'argument_index': i, 'kwargs': {n: _brief(x) for n, x in k.items()},
+                                          'values': _brief(np.asarray(v.values)), 'dt': float(v.dt)},
+                                  detail={'changed': bad}, facts={'fn': 'probe-settings', 'function': qual})
             return res0
         finally:
             st.depth -= 1
@@ -436,6 +487,10 @@ def _wrapper_body(st, rng, orig, qual, a, k):
                 return orig(*a, **k)
             cand = rng.choice(cands)
             var = _apply(a, k, cand)
+            if rng.random() < 0.15:
+                ts = _timescale(orig, a, k)
+                if ts is not None:
+                    var, cand = ts, ('*', 'time', 'timescale')
             if var is None:
                 return orig(*a, **k)
             _run(orig, *var)                      # the colliding call first
